@@ -31,6 +31,8 @@ class Parent(HasTraits):
     y = Int(2)
     pre_q = Int(3)
     pp_r = Int(4)
+    _t = Int(6)
+    pp_t = Int(66)
 
 
 class Child(HasTraits):
@@ -41,6 +43,7 @@ class Child(HasTraits):
     xx = DelegatesTo("parent", prefix="y")
     q = DelegatesTo("parent", prefix="pre_*")
     r = DelegatesTo("parent", prefix="*")
+    t = DelegatesTo("parent", prefix="_*")      # one-character prefix
 
 
 class PChild(HasTraits):
@@ -50,6 +53,14 @@ class PChild(HasTraits):
     xx = PrototypedFrom("parent", prefix="y")
     q = PrototypedFrom("parent", prefix="pre_*")
     r = PrototypedFrom("parent", prefix="*")
+    t = PrototypedFrom("parent", prefix="_*")
+
+
+class PChild2(HasTraits):
+    """only two deferring attributes (listener bookkeeping edge cases)"""
+    parent = Instance(Parent)
+    x = PrototypedFrom("parent")
+    xx = PrototypedFrom("parent", prefix="y")
 
 
 class Leaf(HasTraits):
@@ -67,7 +78,8 @@ class Top(HasTraits):
     w = DelegatesTo("middle", prefix="width")
 
 
-ATTRS = {"x": "x", "xx": "y", "q": "pre_q", "r": "pp_r"}
+ALL_ATTRS = {"x": "x", "xx": "y", "q": "pre_q", "r": "pp_r", "t": "_t"}
+ATTRS = dict(ALL_ATTRS)
 VALS = [5, 6, "bad"]
 
 
@@ -85,12 +97,15 @@ class World:
             self.hook(self.mid, ["width"], tag="mid.")
             return
         self.parents = [Parent(), Parent()]
-        cls = Child if kind == "delegate" else PChild
+        cls = {"delegate": Child, "proto": PChild, "proto2": PChild2}[kind]
+        self.attrs = dict(ALL_ATTRS) if kind != "proto2" else \
+            {"x": "x", "xx": "y"}
         self.c = cls(parent=self.parents[0])
         self.cur = 0
-        self.P = [{"x": 1, "y": 2, "pre_q": 3, "pp_r": 4} for _ in range(2)]
+        self.P = [{"x": 1, "y": 2, "pre_q": 3, "pp_r": 4, "_t": 6,
+                   "pp_t": 66} for _ in range(2)]
         self.L = {}
-        self.hook(self.c, list(ATTRS))
+        self.hook(self.c, list(self.attrs))
 
     def hook(self, obj, names, tag=""):
         for n in names:
@@ -124,15 +139,16 @@ def menu(kind):
             evs += [("set_leaf", i, v) for i in (0, 1) if v != "bad"]
         evs += [("swap", 0), ("swap", 1)]
         return evs
-    for a in ATTRS:
+    attrs = ALL_ATTRS if kind != "proto2" else {"x": "x", "xx": "y"}
+    for a in attrs:
         for v in VALS:
             evs.append(("set_child", a, v))
-        if kind == "proto":
+        if kind.startswith("proto"):
             evs.append(("del_child", a))
     for i in (0, 1):
-        for a in ATTRS:
+        for a in attrs:
             for v in VALS[:2]:
-                evs.append(("set_parent", i, ATTRS[a], v))
+                evs.append(("set_parent", i, attrs[a], v))
     evs += [("swap", 0), ("swap", 1)]
     return evs
 
@@ -160,6 +176,7 @@ def step(ctx, w, ev, hist, check):
         return chain_step(ctx, w, ev, hist, bad) and good
     c = w.c
     cur = w.parents[w.cur]
+    ATTRS = w.attrs
     if k == "set_child":
         a, v = ev[1], ev[2]
         tgt = ATTRS[a]
@@ -344,7 +361,7 @@ def run_history(ctx, kind, hist):
 
 def shards(tier):
     out = []
-    for kind in ("delegate", "proto", "chain"):
+    for kind in ("delegate", "proto", "proto2", "chain"):
         for i in range(len(menu(kind))):
             out.append({"kind": kind, "first": i})
     return out
